@@ -19,11 +19,12 @@ from collections import Counter
 
 from vlib import env, findings
 
-CASE_WALL_LIMIT_S = 300     # a single case running this long is a hang of the harness/program: harness error, exit 2
+CASE_WALL_LIMIT_S = 60     # a single case running this long is a hang of the harness/program: harness error, exit 2
 
 
-class CaseTimeout(Exception):
-    pass
+class CaseTimeout(KeyboardInterrupt):
+    """Derived from KeyboardInterrupt so that asyncio's callback runner (which swallows every other exception raised
+    inside a loop callback) lets it through."""
 
 
 def _on_alarm(signum, frame):
@@ -103,6 +104,9 @@ def violation(sig, msg, **detail):
     d = {"sig": sig, "msg": msg}
     d.update(detail)
     return d
+
+
+MAX_CASES_PER_PROCESS = 1500
 
 
 class SubCheck:
@@ -194,12 +198,13 @@ def _shard(args):
             if stats.first_fail_t is not None and time.time() - stats.first_fail_t > sc.max_shrink_s:
                 return  # shrink budget used: let the shrinker converge quickly
             try:
-                signal.setitimer(signal.ITIMER_REAL, CASE_WALL_LIMIT_S)
+                signal.setitimer(signal.ITIMER_REAL, CASE_WALL_LIMIT_S, 5)     # fires again every 5 s: clean-up code that
+                # runs the loop again after the first interrupt (Rig.stop) is interrupted too
                 try:
                     res = sc.check(drawn)
                 finally:
                     signal.setitimer(signal.ITIMER_REAL, 0)
-            except Exception:   # pylint: disable=broad-except
+            except (Exception, CaseTimeout):   # pylint: disable=broad-except
                 stats.harness_error = {"case": to_jsonable(drawn), "traceback": traceback.format_exc()}
                 raise
             case = res.case if res.case is not None else drawn
@@ -237,6 +242,52 @@ def _shard(args):
         out["harness_error"] = {"case": None, "traceback": traceback.format_exc()}
     out["wall"] = time.time() - t0
     return out
+
+
+def _shard_entry(args, conn):
+    try:
+        import resource
+        # a runaway case must fail inside its own process (MemoryError -> harness error), not take the machine down
+        resource.setrlimit(resource.RLIMIT_AS, (8 << 30, 8 << 30))
+    except Exception:   # pylint: disable=broad-except
+        pass
+    try:
+        conn.send(_shard(args))
+    finally:
+        conn.close()
+
+
+def _run_tasks(tasks, nproc):
+    """One fresh process per task, at most nproc at a time. Unlike multiprocessing.Pool this survives the death of a
+    worker (e.g. the kernel's OOM killer): the lost shard is reported as a harness error instead of hanging the run."""
+    from multiprocessing.connection import wait
+    ctx = multiprocessing.get_context("fork")
+    pending = list(tasks)
+    running = {}
+    while pending or running:
+        while pending and len(running) < nproc:
+            t = pending.pop(0)
+            rc, wc = ctx.Pipe(duplex=False)
+            p = ctx.Process(target=_shard_entry, args=(t, wc))
+            p.start()
+            wc.close()
+            running[rc] = (p, t)
+        ready = wait(list(running.keys()), timeout=1.0)
+        for rc in ready:
+            p, t = running.pop(rc)
+            try:
+                out = rc.recv()
+            except (EOFError, OSError):
+                out = None
+            rc.close()
+            p.join(10)
+            if out is None:
+                out = {"sub": t[1], "evaluations": 0, "nontrivial": set(), "classes": Counter(), "samples": {},
+                       "known": Counter(), "excluded": Counter(), "violation": None, "wall": 0.0, "cov": set(),
+                       "harness_error": {"case": None, "traceback": "worker process for shard %r died without a result "
+                                         "(exit code %r; a negative code is a signal, -9 usually the OOM killer)" %
+                                         (t[1:4], p.exitcode)}}
+            yield out
 
 
 def _replay_corpus(mod, sc):
@@ -290,13 +341,16 @@ def run_property(mod, tier, only=None, scale=1.0):
         procs = 16 if thorough else sc.procs_quick
         procs = max(1, min(procs, total // 20 or 1))
         per = max(1, total // procs)
+        if per > MAX_CASES_PER_PROCESS:
+            # long-lived workers accumulate memory (MPF keeps per-machine state in class-level structures):
+            # more, shorter shards, each in a fresh process
+            procs = -(-total // MAX_CASES_PER_PROCESS)
+            per = max(1, total // procs)
         for i in range(procs):
             tasks.append((mod.__name__, sc.name, per, seed * 100003 + i * 7919 + (zlib_crc(sc.name) % 1000), True))
     nproc = min(16, len(tasks)) or 1
-    # heavy shards first
-    ctx = multiprocessing.get_context("fork")
-    with ctx.Pool(nproc, maxtasksperchild=1) as pool:
-        for out in pool.imap_unordered(_shard, tasks):
+    if True:
+        for out in _run_tasks(tasks, nproc):
             a = agg[out["sub"]]
             a["evaluations"] += out["evaluations"]
             a["nontrivial"] |= out["nontrivial"]
